@@ -466,14 +466,14 @@ def _combos(rng):
 def _gen_cases(rng, mode):
     """mode: quick | thorough | search"""
     if mode == "quick":
-        rounds, lengths, nseq, maxlen, budget, cap = 3, _LEN_QUICK, 3, 25, 80_000_000, 48
-        n_random, n_tuned, n_mal, tiny_rounds = 60, 12, 60, 1
+        rounds, lengths, nseq, maxlen, budget, cap = 5, _LEN_QUICK, 3, 25, 80_000_000, 48
+        n_random, n_tuned, n_mal, tiny_rounds = 100, 16, 80, 1
     elif mode == "thorough":
-        rounds, lengths, nseq, maxlen, budget, cap = 3, _LEN_QUICK + _LEN_MORE, 4, 200, 200_000_000, 300
-        n_random, n_tuned, n_mal, tiny_rounds = 160, 36, 240, 2
+        rounds, lengths, nseq, maxlen, budget, cap = 4, _LEN_QUICK + _LEN_MORE, 4, 200, 200_000_000, 300
+        n_random, n_tuned, n_mal, tiny_rounds = 220, 40, 300, 2
     else:
-        rounds, lengths, nseq, maxlen, budget, cap = 5, _LEN_QUICK + _LEN_MORE[:9], 4, 40, 80_000_000, 64
-        n_random, n_tuned, n_mal, tiny_rounds = 120, 24, 200, 2
+        rounds, lengths, nseq, maxlen, budget, cap = 7, _LEN_QUICK + _LEN_MORE[:9], 4, 60, 80_000_000, 64
+        n_random, n_tuned, n_mal, tiny_rounds = 200, 36, 300, 3
     combos = _combos(rng)
     cases = []
     # 1. grid: every boundary length x every kind
